@@ -1378,6 +1378,173 @@ def run_optional_ref_witness(ctx):
     db.disconnect()
 
 
+# ---------------------------------------------------------------- references inside a composite primary key
+
+KEYREF_COMPONENTS = {
+    # name -> (declaration in K, number of key columns, target entity, its str attribute, its int attribute)
+    's': ('s = Required("S")', 1, 'S', 'name', 'v'),
+    't': ('t = Required("T")', 1, 'T', 'name', 'v'),
+    'm': ('m = Required("M")', 2, 'M', 'label', 'w'),
+    'w': ('w = Required("W")', 3, 'W', 'label', 'w'),
+    'n': ('n = Required(int)', 1, None, None, None),
+}
+
+
+def keyref_orders(rng, quick_n=None):
+    import itertools
+    out = []
+    for size in (2, 3):
+        for combo in itertools.permutations(['s', 't', 'm', 'w', 'n'], size):
+            if all(KEYREF_COMPONENTS[c][2] is None for c in combo): continue
+            out.append(combo)
+    if quick_n is not None and len(out) > quick_n:
+        # always keep the orders in which a reference FOLLOWS a multi-column-key reference (attribute offset != column offset)
+        must = [o for o in out if len(o) == 2 and KEYREF_COMPONENTS[o[0]][1] > 1] + [('n', 'm', 's'), ('m', 's', 't'), ('w', 'm', 's'), ('s', 'm', 't')]
+        rest = [o for o in out if o not in must]; rng.shuffle(rest)
+        out = must + rest[:max(0, quick_n - len(must))]
+    return out
+
+
+class _Obj(object):
+    def __init__(self, **kw): self.__dict__.update(kw)
+
+
+def run_key_refs(ctx, quick_n):
+    """Entities whose COMPOSITE primary key contains references — to single-column-key entities (S, T), a two-column-key entity (M) and
+    a three-column-key entity (W), plus a plain integer — in every order of 2 and 3 components; a further entity D references K (so
+    K's key columns are foreign key columns of D).  Column values overlap (every key value is 1..3), so a join on the wrong column
+    still finds rows.  For each key reference r: projection through r, filters on r's attributes, comparison of r with an object and
+    with its key, comparison of two references' attributes, the collection from the other side, navigation d.k.r, count of the
+    collection; string and generator form.  Expected = the SAME source evaluated by Python over plain mirror objects."""
+    from pony.orm import PrimaryKey, Set, count
+    from pony.orm.core import TranslationError
+    rng = ctx.rng
+    for order in keyref_orders(rng, quick_n):
+        sig = ','.join(order)
+        db = Database()
+        decl = ['class S(db.Entity):\n    id = PrimaryKey(int); name = Required(str); v = Required(int); ks = Set("K")',
+                'class T(db.Entity):\n    id = PrimaryKey(int); name = Required(str); v = Required(int); ks = Set("K")',
+                'class M(db.Entity):\n    a = Required(int); b = Required(int); label = Required(str); w = Required(int); PrimaryKey(a, b); ks = Set("K")',
+                'class W(db.Entity):\n    a = Required(int); b = Required(str); c = Required(int); label = Required(str); w = Required(int); PrimaryKey(a, b, c); ks = Set("K")',
+                'class K(db.Entity):\n    ' + '\n    '.join(KEYREF_COMPONENTS[c][0] for c in ['s', 't', 'm', 'w', 'n'])
+                + '\n    val = Required(int, unique=True)\n    PrimaryKey(%s)\n    ds = Set("D")' % ', '.join(order),
+                'class D(db.Entity):\n    id = PrimaryKey(int); k = Required("K"); ok = Optional("K", reverse="ods")']
+        decl[4] = decl[4].replace('ds = Set("D")', 'ds = Set("D", reverse="k"); ods = Set("D", reverse="ok")')
+        ns = dict(db=db, PrimaryKey=PrimaryKey, Required=Required, Optional=Optional, Set=Set)
+        try:
+            for d in decl: exec(d, ns)
+            db.bind('sqlite', ':memory:'); db.generate_mapping(create_tables=True)
+        except Exception as ex:
+            ctx.count('keyref:schema-refused:%s' % type(ex).__name__); ctx.note('keyref schema %s refused: %s: %s' % (sig, type(ex).__name__, str(ex)[:120])); continue
+        S, T, M, W, K, D = (ns[x] for x in 'STMWKD')
+        present = ['s', 't', 'm', 'w', 'n']       # every component is an attribute of K; `order` says which of them form the key
+        # mirror data
+        names = ['a', 'ab', 'b', 'ba']
+        mS = [_Obj(id=i, name=rng.choice(names), v=rng.randint(1, 3), ks=[]) for i in (1, 2, 3)]
+        mT = [_Obj(id=i, name=rng.choice(names), v=rng.randint(1, 3), ks=[]) for i in (1, 2, 3)]
+        mM = [_Obj(a=a, b=b, label=rng.choice(names), w=rng.randint(1, 3), ks=[]) for a, b in ((1, 2), (2, 1), (2, 3), (3, 3), (1, 1))]
+        mW = [_Obj(a=a, b=b, c=c, label=rng.choice(names), w=rng.randint(1, 3), ks=[]) for a, b, c in ((1, '2', 3), (2, '1', 1), (3, '3', 2), (2, '2', 2))]
+        pools = {'s': mS, 't': mT, 'm': mM, 'w': mW, 'n': [1, 2, 3]}
+        mK, seen = [], set()
+        for _ in range(60):
+            if len(mK) >= 12: break
+            pick = {c: rng.choice(pools[c]) for c in present}
+            key = tuple(id(pick[c]) if c != 'n' else pick[c] for c in order)
+            if key in seen: continue
+            seen.add(key)
+            k = _Obj(val=len(mK) + 1, ds=[], ods=[], **pick)
+            mK.append(k)
+            for c in present:
+                if c != 'n': pick[c].ks.append(k)
+        mD = []
+        for i in range(1, 11):
+            d = _Obj(id=i, k=rng.choice(mK), ok=rng.choice(mK + [None, None]))
+            mD.append(d); d.k.ds.append(d)
+            if d.ok is not None: d.ok.ods.append(d)
+        try:
+            with db_session:
+                real = {}
+                for o in mS: real[id(o)] = S(id=o.id, name=o.name, v=o.v)
+                for o in mT: real[id(o)] = T(id=o.id, name=o.name, v=o.v)
+                for o in mM: real[id(o)] = M(a=o.a, b=o.b, label=o.label, w=o.w)
+                for o in mW: real[id(o)] = W(a=o.a, b=o.b, c=o.c, label=o.label, w=o.w)
+                for k in mK: real[id(k)] = K(val=k.val, **{c: (real[id(getattr(k, c))] if c != 'n' else k.n) for c in present})
+                for d in mD: D(id=d.id, k=real[id(d.k)], ok=(real[id(d.ok)] if d.ok is not None else None))
+        except Exception as ex:
+            ctx.violation('storing objects whose composite primary key contains references raises', {'key order': sig}, observed='%s: %s' % (type(ex).__name__, ex),
+                          expected='objects stored', key='keyref-store-raises:%s' % type(ex).__name__)
+            db.disconnect(); continue
+        pkmap = {}
+        for o in mS: pkmap[id(o)] = (S, o.id)
+        for o in mT: pkmap[id(o)] = (T, o.id)
+        for o in mM: pkmap[id(o)] = (M, (o.a, o.b))
+        for o in mW: pkmap[id(o)] = (W, (o.a, o.b, o.c))
+        # queries
+        qs = []
+        refs = [c for c in order if c != 'n']
+        for r in refs:
+            _, ncol, ent, sa, ia = KEYREF_COMPONENTS[r]
+            pool = pools[r]
+            qs.append(('projection', '(k.val, k.%s.%s) for k in K' % (r, sa), {}))
+            qs.append(('projection', '(k.val, k.%s.%s, k.%s.%s) for k in K' % (r, ia, r, sa), {}))
+            for cst in sorted({getattr(o, sa) for o in pool})[:3]:
+                qs.append(('filter-attr', 'k.val for k in K if k.%s.%s == %r' % (r, sa, cst), {}))
+            qs.append(('filter-attr', 'k.val for k in K if k.%s.%s > %d and k.val < 10' % (r, ia, rng.randint(1, 2)), {}))
+            qs.append(('filter-attr', '(k.val, k.%s.%s) for k in K if k.%s.%s >= k.val - %d' % (r, sa, r, ia, rng.randint(3, 8)), {}))
+            tgt = rng.choice(pool)
+            qs.append(('filter-object', 'k.val for k in K if k.%s == p0' % r, {'p0': tgt}))
+            qs.append(('filter-object', 'k.val for k in K if k.%s != p0' % r, {'p0': tgt}))
+            if ncol == 1: qs.append(('filter-key', 'k.val for k in K if k.%s.id == %d' % (r, tgt.id), {}))
+            elif ncol == 2: qs.append(('filter-key', 'k.val for k in K if k.%s.a == %d and k.%s.b == %d' % (r, tgt.a, r, tgt.b), {})); qs.append(('filter-key', 'k.val for k in K if k.%s.b == %d' % (r, tgt.b), {}))
+            else: qs.append(('filter-key', 'k.val for k in K if k.%s.c == %d' % (r, tgt.c), {})); qs.append(('filter-key', '(k.val, k.%s.b) for k in K if k.%s.a == %d' % (r, r, tgt.a), {}))
+            qs.append(('collection', '(x.%s, k.val) for x in %s for k in x.ks' % (sa, ent), {}))
+            qs.append(('collection', '(x.%s, k.val) for x in %s for k in x.ks if k.%s.%s == x.%s and k.val > %d' % (ia, ent, r, sa, sa, rng.randint(0, 4)), {}))
+            qs.append(('collection-count', '(%s, x.%s, count(x.ks)) for x in %s' % ({1: 'x.id', 2: 'x.a, x.b', 3: 'x.a, x.b, x.c'}[ncol], sa, ent), {}))
+            qs.append(('through-foreign-key', '(d.id, d.k.%s.%s) for d in D' % (r, sa), {}))
+            qs.append(('through-foreign-key', 'd.id for d in D if d.k.%s.%s > %d' % (r, ia, rng.randint(1, 2)), {}))
+            qs.append(('through-foreign-key', 'd.id for d in D if d.ok.%s.%s == %r' % (r, sa, rng.choice(names)), {}))
+            qs.append(('through-foreign-key', 'd.id for d in D if d.k.%s == p0' % r, {'p0': tgt}))
+        for r1 in refs:
+            for r2 in refs:
+                if r1 < r2:
+                    a1, a2 = KEYREF_COMPONENTS[r1][3], KEYREF_COMPONENTS[r2][3]
+                    qs.append(('two-references', 'k.val for k in K if k.%s.%s <= k.%s.%s' % (r1, a1, r2, a2), {}))
+                    qs.append(('two-references', '(k.val, k.%s.%s, k.%s.%s) for k in K if k.%s.%s != k.%s.%s' % (r1, a1, r2, a2, r1, KEYREF_COMPONENTS[r1][4], r2, KEYREF_COMPONENTS[r2][4]), {}))
+        if 'n' in order and refs:
+            r = refs[0]
+            qs.append(('filter-attr', 'k.val for k in K if k.%s.%s == k.n' % (r, KEYREF_COMPONENTS[r][4]), {}))
+        qs.append(('collection', '(d.id, k.val) for k in K for d in k.ds', {}))
+        qs.append(('collection', '(d.id, k.val) for k in K for d in k.ods if d.k.val >= k.val', {}))
+        pyG = dict(S=mS, T=mT, M=mM, W=mW, K=mK, D=mD, count=len)
+        with db_session:
+            for kind, src, prm in qs:
+                try:
+                    G2 = dict(pyG); G2.update(prm)
+                    exp = sorted(set(eval('[%s]' % src.replace('d.ok.', 'd.ok is not None and d.ok.'), G2)), key=repr)
+                except Exception as ex:
+                    ctx.divergence('the Python reading of a key-reference query cannot be evaluated', {'query': src}, model='%s: %s' % (type(ex).__name__, ex), impl=None); continue
+                G = dict(S=S, T=T, M=M, W=W, K=K, D=D, count=count, select=select)
+                G.update({n_: pkmap[id(o)][0][pkmap[id(o)][1]] for n_, o in prm.items()})
+                for form in ('string', 'generator'):
+                    ctx.case(['keyref', sig, form, src], kind='keyref:%s:%s' % (kind, form))
+                    inp = {'key order of K': 'PrimaryKey(%s)' % ', '.join(order), 'query': 'select(%s)' % src, 'params': {n_: repr(o.__dict__.get('id', (o.__dict__.get('a'), o.__dict__.get('b'), o.__dict__.get('c')))) for n_, o in prm.items()},
+                           'rows of K (val: key)': {k.val: [(getattr(k, c) if c == 'n' else {x: y for x, y in getattr(k, c).__dict__.items() if x != 'ks'}) for c in order] for k in mK}}
+                    try:
+                        q = select(src, G) if form == 'string' else eval('select(%s)' % src, G)
+                        got = sorted(set(q[:]), key=repr)
+                    except (TranslationError, NotImplementedError) as ex:
+                        ctx.count('keyref:refused:%s:%s' % (kind, type(ex).__name__)); continue
+                    except Exception as ex:
+                        ctx.violation('a query navigating through a reference that is part of a composite primary key raises (%s form)' % form, inp,
+                                      observed='%s: %s' % (type(ex).__name__, ex), expected=exp, key='keyref-raises:%s:%s' % (kind, type(ex).__name__))
+                        continue
+                    if got != exp:
+                        ctx.violation('a query navigating through a reference that is part of a composite primary key returns other rows than Python evaluation of the same expression (%s, %s form)' % (kind, form),
+                                      dict(inp, sql=' '.join(db.last_sql.split())), observed=got, expected=exp, key='composite-key-reference:%s' % kind)
+        db.disconnect()
+
+
+
 def run(ctx):
     import time
     steps = [
@@ -1385,6 +1552,7 @@ def run(ctx):
         ('exists', lambda: run_exists(ctx, ctx.scale(40, 400))),
         ('exists-m2m', lambda: run_exists_m2m(ctx, ctx.scale(30, 300))),
         ('joins', lambda: run_joins(ctx, ctx.scale(40, 400))),
+        ('key-references', lambda: run_key_refs(ctx, ctx.scale(16, None))),
         ('temporal', lambda: run_temporal(ctx, 0)),
         ('subquery-nulls', lambda: run_subquery_nulls(ctx, ctx.scale(4, 40))),
         ('string-index', lambda: run_string_index(ctx, ctx.scale(25, 300))),
